@@ -616,6 +616,60 @@ Proof.
     exists pre', i, ts, sq. split; reflexivity.
 Qed.
 
+(* ---- manual driving with requests from outside the callbacks ------------------------------------------ *)
+
+Lemma sim_external_sound (s : kstate F (payload F) sstate) n acts :
+  t_inv (k_h s) ->
+  let '(s1, it) := sim_external A cfg s n acts in
+  t_inv (k_h s1) /\ sound (t_abs (k_h s)) it (t_abs (k_h s1)).
+Proof.
+  intros Hi. unfold sim_external.
+  pose proof (do_actions_sound (k_h s) (el_now (k_el s)) n acts) as Hd.
+  destruct (do_actions A cfg (k_h s) (el_now (k_el s)) n acts) as [[h1 q] t].
+  destruct (Hd Hi) as [Hi1 Hs1].
+  pose proof (sched_all_sound A t_next t_ok t_abs t_sched_neutral t_refused_neutral (k_el s) q h1) as Hr.
+  destruct (sched_all A (k_el s) q) as [l1 ref]. simpl in *. split; [exact Hi1|].
+  eapply sound_app; eassumption.
+Qed.
+
+(** Any interleaving of step_simulation() calls and external requests, any bounds. *)
+Theorem drive_accepted (c : kcfg F) ops (s : kstate F (payload F) sstate) :
+  t_inv (k_h s) ->
+  let '(s', items) := sim_drive A cfg react c ops s in
+  t_inv (k_h s') /\ sound (t_abs (k_h s)) items (t_abs (k_h s')).
+Proof.
+  revert s. induction ops as [|o r IH]; intros s Hi; simpl; [split; [exact Hi|apply sound_nil]|].
+  assert (H1 : let '(s1, it, _) := sim_drive1 A cfg react c s o in
+               t_inv (k_h s1) /\ sound (t_abs (k_h s)) it (t_abs (k_h s1))).
+  { destruct o as [|n acts]; simpl.
+    - pose proof (k_step_sound A hooks c t_next t_ok t_abs t_inv t_sched_neutral t_refused_neutral
+                    sim_init_sound sim_exec_sound sim_after_sound sim_finish_sound s Hi) as Hs.
+      destruct (k_step A hooks c s) as [[s1 it] b]. exact Hs.
+    - pose proof (sim_external_sound s n acts Hi) as He. destruct (sim_external A cfg s n acts) as [s1 it]. exact He. }
+  destruct (sim_drive1 A cfg react c s o) as [[s1 it] rb]. destruct H1 as [Hi1 Hs1].
+  specialize (IH s1 Hi1). destruct (sim_drive A cfg react c r s1) as [s2 its]. destruct IH as [Hi2 Hs2].
+  split; [exact Hi2|]. eapply sound_app; eassumption.
+Qed.
+
+Theorem whole_drive_accepted (c : kcfg F) ops ps0 :
+  let '(s0, i0) := sim_start A cfg ps0 in
+  let '(s', items) := sim_drive A cfg react c ops s0 in
+  accept t_next t_ok t0 (i0 ++ items) /\
+  after t_next t0 (i0 ++ items) = mkT (s_pending (k_h s')) (s_nextid (k_h s')) None.
+Proof.
+  unfold sim_start.
+  pose proof (k_start_sound A t_next t_ok t_abs t_sched_neutral t_refused_neutral (sim_state0 cfg ps0) (sim_reqs0 A cfg)) as H0.
+  assert (Hh : k_h (fst (k_start A (T:=titem F) (sim_state0 cfg ps0) (sim_reqs0 A cfg))) = sim_state0 cfg ps0).
+  { unfold k_start. destruct (sched_all A (el_init A) (sim_reqs0 A cfg)). reflexivity. }
+  destruct (k_start A (T:=titem F) (sim_state0 cfg ps0) (sim_reqs0 A cfg)) as [s0 i0]. simpl in Hh, H0.
+  pose proof (drive_accepted c ops s0) as Hr. rewrite Hh in Hr. specialize (Hr (sim_state0_inv ps0)).
+  destruct (sim_drive A cfg react c ops s0) as [s' items]. destruct Hr as [_ [Ha Hf]].
+  assert (Ht0 : t_abs (sim_state0 cfg ps0) = t0) by reflexivity. rewrite Ht0 in *.
+  destruct H0 as [Ha0 Hf0]. split.
+  - apply accept_app. rewrite Hf0. split; assumption.
+  - rewrite after_app, Hf0. exact Hf.
+Qed.
+
 (** Whole runs from the state SimulationBuilder.build() leaves, start-up requests included. *)
 Theorem whole_run_accepted (c : kcfg F) fuel ps0 :
   let '(s0, i0) := sim_start A cfg ps0 in
